@@ -22,6 +22,17 @@ type selfTestResult struct {
 
 func dumpFacts(m *Model, what string) {
 	r := m.Roots()
+	if what == "names-ref" {
+		b, _ := json.MarshalIndent(m.buildNamesRef(), "", " ")
+		fmt.Println(string(b))
+		return
+	}
+	if what == "renames" {
+		for _, n := range curAliases.notes {
+			fmt.Println(n)
+		}
+		return
+	}
 	if strings.HasPrefix(what, "ssa:") {
 		// debug: print the SSA of the functions whose key contains the given text
 		for _, fn := range m.ModFns {
